@@ -437,6 +437,7 @@ func runC09(c *Ctx) {
 			c.Undecided("connector from/to call sites", "-", fmt.Sprintf("%d call sites, %d usage maps", n, len(role)))
 		}
 	}
+	runRouterReadOnly(c, "R12")
 }
 
 func mustFn(p *Prog, pk *packages.Package, T *types.Named, name string) *ssa.Function {
